@@ -194,12 +194,14 @@ func (sv *searchVars) inList(s *slip.Scope, seq2 slip.List, depth int) slip.Obje
 func (sv *searchVars) searchList(s *slip.Scope, seq1, seq2 slip.List, depth int) slip.Object {
 	if sv.end1 < 0 {
 		sv.end1 = len(seq1)
-	} else if len(seq1) < sv.end1 {
+	}
+	if len(seq1) < sv.end1 || sv.end1 < sv.start1 {
 		slip.ErrorPanic(s, depth, "bounding indices %d and %d are invalid for sequence of length %d", sv.start1, sv.end1, len(seq1))
 	}
 	if sv.end2 < 0 {
 		sv.end2 = len(seq2)
-	} else if len(seq2) < sv.end2 {
+	}
+	if len(seq2) < sv.end2 || sv.end2 < sv.start2 {
 		slip.ErrorPanic(s, depth, "bounding indices %d and %d are invalid for sequence of length %d", sv.start2, sv.end2, len(seq2))
 	}
 	seq1 = seq1[sv.start1:sv.end1]
